@@ -16,6 +16,17 @@ CHECKS = {
              'frozensets and enum members',
         technique=TECH + ' + exhaustive finite-domain enumeration',
         ref='DESIGN.md 7 C20'),
+    'C01': dict(
+        category='exploration',
+        text='the all-programs clause is decided only by a bounded stand-in (differential run of to_graph/convert '
+             'against the original over all control skeletons with <= K control nodes plus seeded random programs, '
+             'all decision vectors explored adaptively); proved kernels (default operators are the native '
+             'constructs, call wrapper, status stack, options) are discharged by pvc and reused as hypotheses',
+        note='bounded, never counted as proved: program space and bounds are reported in the evidence; trusted: '
+             'CPython as the reference semantics, the tracer-based notion of observation',
+        technique='contract-based deductive verification of the operator kernels (pvc/z3) + bounded differential '
+                  'stand-in for the compiler passes',
+        ref='DESIGN.md 7 C01'),
 }
 
 PENDING_REASON = 'check not built yet (work in progress in this session; see DESIGN.md section 7 for the plan)'
